@@ -273,6 +273,13 @@ func C04(run *mon.Run) {
 						run.Violate("C04:sk-pk-consistency:cached-subset", fmt.Sprintf("public key of the aggregated private key differs from the aggregated public keys when PublicKey() had been called on the inputs selected by mask %b only (err %v)", m, e), rep)
 						break
 					}
+					if sum.Sign() == 0 {
+						// keys summing to zero: the public key IS the identity key, whichever way it was computed
+						if ok, _ := a.PublicKey().Verify(infSig, []byte("zero"), crypto.NewExpandMsgXOFKMAC128("c04-zero")); ok {
+							run.Violate("C04:identity-result-not-treated-as-identity:aggregated-private-key", fmt.Sprintf("the public key of private keys summing to zero (PublicKey() called beforehand on the inputs selected by mask %b) accepts the identity signature", m), rep)
+							break
+						}
+					}
 				}
 				run.Shape("cached-subset|" + nb)
 			}
@@ -413,6 +420,94 @@ func C04(run *mon.Run) {
 		}
 		run.Shape("non-subgroup")
 	}
+	// every list size 1..N (quick 72, thorough 300): public keys (every third one in Jacobian form, one
+	// identity key), private keys and signatures of the same scalars, against reference prefix sums
+	{
+		N := run.Pick(72, 300)
+		rr := run.Rand("list-sizes")
+		hh := crypto.NewExpandMsgXOFKMAC128("c04-sizes")
+		msg := []byte("list sizes")
+		H, err := hashPoint(msg, hh, "kmac:c04-sizes")
+		if err != nil {
+			run.Violate("C04:hash-point", err.Error(), nil)
+			return
+		}
+		ks := make([]*big.Int, N)
+		sks := make([]crypto.PrivateKey, N)
+		pks := make([]crypto.PublicKey, N)
+		sigs := make([]crypto.Signature, N)
+		for i := range ks {
+			ks[i] = randScalar(rr)
+			if i == 5 {
+				ks[i] = ref.Fr.Neg(ks[2]) // a cancelling pair inside every longer list
+			}
+			sks[i] = skFromInt(ks[i])
+			pks[i] = sks[i].PublicKey()
+			if i%3 == 2 {
+				pks[i] = jacobianForm(pks[i], rr)
+			}
+			sigs[i], _ = sks[i].Sign(msg, hh)
+		}
+		sumK := new(big.Int)
+		for n := 1; n <= N; n++ {
+			sumK = ref.Fr.Add(sumK, ks[n-1])
+			n, sum := n, new(big.Int).Set(sumK)
+			wg.Add(1)
+			sem <- struct{}{}
+			go func() {
+				defer wg.Done()
+				defer func() { <-sem }()
+				defer run.Protect("c04 worker")
+				rep := map[string]any{"list_size": n}
+				wantPk := ref.EncodeG2(ref.E2.Mul(ref.G2Gen, sum), cv)
+				wantSig := ref.EncodeG1(ref.E1.Mul(H, sum))
+				list := append([]crypto.PublicKey{}, pks[:n]...)
+				if n%4 == 0 {
+					list = append(list, idPk)
+				}
+				var aPk crypto.PublicKey
+				var aSk crypto.PrivateKey
+				var aSig crypto.Signature
+				var e1, e2, e3 error
+				if run.Guard("aggregation(list size)", rep, func() {
+					aPk, e1 = crypto.AggregateBLSPublicKeys(list)
+					aSk, e2 = crypto.AggregateBLSPrivateKeys(sks[:n])
+					aSig, e3 = crypto.AggregateBLSSignatures(sigs[:n])
+				}) {
+					return
+				}
+				run.Eval(3)
+				run.Count("list-sizes.sizes", 1)
+				if e1 != nil || !bytes.Equal(aPk.Encode(), wantPk) {
+					run.Violate("C04:public-sum:list-size", fmt.Sprintf("AggregateBLSPublicKeys of %d keys (every third in Jacobian form) = %x (err %v), reference %x", len(list), pkEncOrNil(aPk), e1, wantPk), rep)
+				}
+				if e2 != nil || !bytes.Equal(aSk.Encode(), ref.ScalarBytes(sum)) {
+					run.Violate("C04:private-sum:list-size", fmt.Sprintf("AggregateBLSPrivateKeys of %d keys differs from the reference sum (err %v)", n, e2), rep)
+				}
+				if e3 != nil || !bytes.Equal(aSig, wantSig) {
+					run.Violate("C04:signature-sum:list-size", fmt.Sprintf("AggregateBLSSignatures of %d signatures = %x (err %v), reference %x", n, []byte(aSig), e3, wantSig), rep)
+				}
+				if n >= 2 && e1 == nil {
+					// Remove(Agg(first n), last n/2) == Agg(first n - n/2)
+					cut := n - n/2
+					sumA := new(big.Int)
+					for _, k := range ks[:cut] {
+						sumA = ref.Fr.Add(sumA, k)
+					}
+					rem, e := crypto.RemoveBLSPublicKeys(aPk, pks[cut:n])
+					run.Eval(1)
+					if wantA := ref.EncodeG2(ref.E2.Mul(ref.G2Gen, sumA), cv); e != nil || !bytes.Equal(rem.Encode(), wantA) {
+						run.Violate("C04:remove:list-size", fmt.Sprintf("Remove(Agg of %d keys, the last %d) = %x (err %v), reference %x", n, n/2, pkEncOrNil(rem), e, wantA), rep)
+					}
+				}
+				if n%16 == 0 {
+					run.Shape(fmt.Sprintf("list-size|%d", n))
+				}
+			}()
+		}
+		wg.Wait()
+		run.Require(run.Counter("list-sizes.sizes") == int64(N), "list-size sweep incomplete")
+	}
 	// algebraic corners: identity operands at each position, equal operands (doubling), opposite
 	// operands (cancellation), and removal whose intermediate sum equals +-the minuend
 	c04Corners(run, r, cv)
@@ -466,6 +561,19 @@ func c04Corners(run *mon.Run, r *rand.Rand, cv ref.Conv) {
 			run.Eval(1)
 			if err != nil || !bytes.Equal(got, e(c.want)) {
 				run.Violate("C04:signature-corner:"+c.name, fmt.Sprintf("AggregateBLSSignatures(%s) = %x (err %v), reference %x", c.name, []byte(got), err, e(c.want)), rep)
+			}
+			// the returned signature is the caller's: it is reused as a scratch buffer, then everything that
+			// depends on "the identity signature" or on this aggregate is asked again
+			if err == nil {
+				for i := range got {
+					got[i] = 0x99
+				}
+				again, err2 := crypto.AggregateBLSSignatures(toSigs(c.in))
+				fresh := ref.EncodeG1(ref.E1.Infinity())
+				run.Eval(2)
+				if err2 != nil || !bytes.Equal(again, e(c.want)) || !crypto.IsBLSSignatureIdentity(fresh) || crypto.IsBLSSignatureIdentity(bytes.Repeat([]byte{0x99}, 48)) {
+					run.Violate("C04:returned-signature-aliases-internal-state", fmt.Sprintf("after the caller overwrote the slice returned by AggregateBLSSignatures(%s): the same aggregation gives %x (err %v, expected %x), IsBLSSignatureIdentity(c000..) = %v, IsBLSSignatureIdentity(9999..) = %v", c.name, []byte(again), err2, e(c.want), crypto.IsBLSSignatureIdentity(fresh), crypto.IsBLSSignatureIdentity(bytes.Repeat([]byte{0x99}, 48))), rep)
+				}
 			}
 			run.Shape("corner|sig|" + c.name)
 		}
